@@ -54,6 +54,24 @@ impl ChainIndex {
             });
         }
 
+        #[cfg(rbp_verif)]
+        if crate::verif::on() {
+            let mut hs: Vec<&u64> = block_index.keys().collect();
+            hs.sort();
+            for h in hs {
+                crate::verif::ev("idx_keep", &block_index[h].verif_json());
+            }
+            crate::verif::ev(
+                "idx_done",
+                &format!(
+                    "\"max_known\":{},\"max_height\":{},\"n\":{},\"start\":{}",
+                    max_known_height,
+                    max_height,
+                    block_index.len(),
+                    min_height
+                ),
+            );
+        }
         Ok(Self {
             max_height,
             block_index,
@@ -130,6 +148,22 @@ impl fmt::Debug for BlockIndexRecord {
     }
 }
 
+#[cfg(rbp_verif)]
+impl BlockIndexRecord {
+    pub fn verif_json(&self) -> String {
+        format!(
+            "\"hash\":\"{}\",\"h\":{},\"status\":{},\"ntx\":{},\"file\":\"{}\",\"off\":\"{}\"",
+            self.block_hash, self.height, self.status, self.tx_count, self.blk_index, self.data_offset
+        )
+    }
+}
+
+#[cfg(rbp_verif)]
+pub fn verif_read_varint(bytes: &[u8]) -> Option<(u64, u64)> {
+    let mut c = Cursor::new(bytes);
+    read_varint(&mut c).ok().map(|v| (v, c.position()))
+}
+
 pub fn get_block_index(path: &Path) -> Result<HashMap<u64, BlockIndexRecord>> {
     info!(target: "index", "Reading index from {} ...", path.display());
 
@@ -141,6 +175,8 @@ pub fn get_block_index(path: &Path) -> Result<HashMap<u64, BlockIndexRecord>> {
         db_iter.current(&mut key, &mut value);
         if is_block_index_record(&key) {
             let record = BlockIndexRecord::from(&key[1..], &value)?;
+            #[cfg(rbp_verif)]
+            crate::verif::ev("idx_rec", &record.verif_json());
             if record.status & (BLOCK_VALID_CHAIN | BLOCK_HAVE_DATA) > 0 {
                 block_index.insert(record.height, record);
             }
